@@ -28,6 +28,7 @@ def parseOp (s : String) : Option (List Op) :=
   | 'M' :: r => (two r).map (fun (n, _) => [Op.fftR n])           -- mscohere
   | 'P' :: r => (num r).map (fun n => [Op.fftR (p2 n)])           -- sinad -> periodogram: fft(real, 2^nextpow2 n)
   | 'H' :: r => (two r).map (fun (n, _) => [Op.fftR n, Op.fftC n])   -- hilbert(x, n): fft(real n), ifft(n)
+  | 'G' :: r => (two r).map (fun (n, _) => [Op.fftR n, Op.irfft n])  -- stft(x, win(m), m/2, nfft = n) then istft: FftPlanR(n), IfftPlanR(n)
   | 'x' :: r => (two r).map (fun (n, m) => [Op.fftC (p2 (n + m - 1))])   -- xcorr: fft, fft, ifft at 2^nextpow2(n+m-1)
   | 'X' :: r => (two r).map (fun (n, m) => [Op.fftC (p2 (n + m - 1))])
   | 'L' :: r => (two r).map (fun (_, m) => [Op.fftC (p2 (2 * m))])       -- FftFilter(m taps): fft(conj h, 2^nextpow2(2m)); process: fft / ifft of that length
